@@ -191,6 +191,7 @@ fn run_m<M: RawMutex>(cfg: &Cfg, ops: &[Op], run: &mut Run) {
         }
         run.set_step(i);
         run.steps += 1;
+        let op = &recycle(op, &slots, &[OP_CREATE], OP_POLL, OP_DROP);
         tls::clear_op_log();
         tls::alloc_reset();
         let pending_before = slots.iter().filter(|s| s.pending()).count();
